@@ -5,11 +5,13 @@ import (
 	"verif/sim/kernel"
 	"verif/sim/props/c06"
 	"verif/sim/props/c07"
+	"verif/sim/props/c17"
 )
 
 func main() {
 	kernel.Main(map[string]kernel.Property{
 		"C06": c06.Prop{},
 		"C07": c07.Prop{},
+		"C17": c17.Prop{},
 	})
 }
